@@ -32,7 +32,7 @@ def describe(tier):
             f"literal contents = every string of length 0..{L2} over {[c.decode() for c in CH]} (so literals that contain, start or end with a joining operator "
             "occur; only literals that ARE a bare operator are excluded, as in the statement) x quote in {',\"}. Concatenation: every chain of 2 literals "
             f"(contents <= {L2}), 3 literals (contents <= 1) and 4 literals (contents from a 4-menu) x every separator spelling {[s.decode() for s in SEPS]} x 4 spacings "
-            "(none, spaces, VB line continuation, tab) x 3 embeddings. Reversal: reverse(/reversed(/StrReverse( x inner spacing x every literal. "
+            "(none, spaces, VB line continuation, tab) x 3 embeddings; padding runs of 100..5000 blanks / underscores / tabs / continuations around every operator spelling. Reversal: reverse(/reversed(/StrReverse( x inner spacing x every literal. "
             "Replacement: 4 dialects (the JS regex dialect with every flag set of {'', g, i, gi, m, gim}) x (x, a, b) over the same literal set with non-empty a (overlapping occurrences such as aaa/aa, b containing a, "
             "empty b) x spacing. Each expression is given to the dialect's decoder; the COMPLETE result list must equal the single expected node "
             "(type, label, value from Python semantics on the unquoted contents: join / [::-1] / bytes.replace, span = whole expression). Every chain "
@@ -53,7 +53,7 @@ def lit(c, q):
 
 def plan(tier, seed):
     units = [("cat2", tier, i) for i in range(len(CH) + 1)]
-    units += [("cat3", tier), ("cat4", tier), ("rev", tier)]
+    units += [("cat3", tier), ("cat4", tier), ("catlong", tier), ("rev", tier)]
     units += [("repl", tier, d, i) for d in range(4) for i in range(len(CH) + 1)]
     return units
 
@@ -185,6 +185,22 @@ def run_unit(unit, rec):
     elif kind == "cat3":
         n = run_cat(rec, itertools.product(list(contents(1)), repeat=3), all_quotes, tier)
         rec.sample({"family": "concat-3", "expressions": n})
+    elif kind == "catlong":
+        n = 0
+        for pad in (100, 1023, 1024, 1025, 1100, 5000):
+            for filler in (b" ", b"_", b"\t", b" _\r\n"):
+                run = (filler * pad)[:pad]
+                for sp in ((run, b""), (b"", run), (run, run)):
+                    for sep in SEPS:
+                        for cs in ((b"ab", b"cd"), (b"a", b"", b"c")):
+                            lits = [lit(c, b'"') for c in cs]
+                            expr = chain(lits, sep, sp)
+                            data = b"x = " + expr + b";"
+                            n += 1
+                            rec.mark("nontrivial", data, True)
+                            expect_one(rec, "C15.concat", concat.find_concat, data, ("string", b"".join(cs), "concatenation", 4, 4 + len(expr)),
+                                       {"kind": "cat", "data": data, "contents": list(cs), "start": 4, "end": 4 + len(expr)}, scan=False)
+        rec.sample({"family": "concat-long-padding", "expressions": n, "paddings": [100, 1023, 1024, 1025, 1100, 5000]})
     elif kind == "cat4":
         menu = [b"a", b"", b"+b", b" "]
         n = run_cat(rec, itertools.product(menu, repeat=4), lambda k: [(b'"',) * k, (b"'",) * k, (b'"', b"'") * (k // 2)], tier)
